@@ -870,7 +870,7 @@ def run_unit(name, tier, repo=None, cache=None, probes=True):
     return base
 
 
-MISSING_RES = [re.compile(r"cannot find function `(\w+)`"), re.compile(r"cannot find value `([A-Z][A-Z0-9_]*)`"),
+MISSING_RES = [re.compile(r"cannot find function `(\w+)`"), re.compile(r"cannot find value `([A-Za-z_][A-Za-z0-9_]*)`"),
                re.compile(r"cannot find (?:type|struct, variant or union type|value|function, tuple struct or tuple variant) `([A-Z][A-Za-z0-9]*)`"),
                re.compile(r"named `(\w+)` found for (?:struct|enum|union|type alias|type) `(\w+)"),
                re.compile(r"no method named `(\w+)` found for (?:struct|enum|union|reference|mutable reference) `[&a-z ]*(\w+)")]
@@ -945,8 +945,12 @@ def find_missing_callees(unit, ctx, text, workdir, repo):
     # a method the edit introduced can be shadowed by a std method of the same name (`x.take(..)` -> "is not an iterator"): look at the
     # method calls on the lines the compiler complains about and ask for those the source defines but the rendered text does not
     tlines = text.split('\n')
+    allmsg = ' '.join(msgs)
     for ln in set(l for l in err_lines if l and 0 < l <= len(tlines)):
         for mm in re.finditer(r'\.([a-z_][A-Za-z0-9_]*)\s*\(', tlines[ln - 1]):
+            # (only a method the compiler actually names in a complaint: a line that fails for another reason says nothing about the other calls on it)
+            if ('`%s`' % mm.group(1)) not in allmsg:
+                continue
             if not re.search(r'\bfn\s+%s\s*[<(]' % re.escape(mm.group(1)), text) and (mm.group(1), '*') not in wanted:
                 wanted.append((mm.group(1), '*'))
     if not wanted:
@@ -964,7 +968,7 @@ def find_missing_callees(unit, ctx, text, workdir, repo):
                 continue
             hit = None
             for it in sf.items:
-                if it.kw in ('fn', 'const', 'static', 'struct', 'enum') and it.name == name and ty is None:
+                if it.kw in ('fn', 'const', 'static', 'struct', 'enum', 'type') and it.name == name and ty is None:
                     hit = (rel, None, name, it.kw)
                 elif it.kw == 'impl' and it.body_open is not None:
                     hdr = re.sub(r'\s+', ' ', it.header).strip()[len('impl'):].strip()
@@ -1279,7 +1283,7 @@ def check_property(prop, tier, registry, seed=0):
         canaries=canary_report,
         extraction='functions are re-extracted from %s on every run by vc/extract.py; rules applied are listed per function' % REPO,
     )
-    ev = dict(property_id=prop, tier=tier, seed=seed, level='proof', coverage=cov,
+    ev = dict(property_id=prop, tier=tier, seed=seed, level=registry.PROPERTIES[prop].get('category', 'proof'), coverage=cov,
               assumptions=spec.get('assumptions', []) + ['see coverage.trusted_base (generated by scanning the rendered units)'],
               wall_s=round(time.time() - t0, 2), violations=len(violations))
     with open(os.path.join(EVID, prop + '.json'), 'w') as f:
